@@ -425,11 +425,13 @@ class C07(Prop):
     # ------------------------------------------------------------------ stress engine
     def extra_checks(self, ctx):
         quick = ctx["tier"] == "quick"
-        per, rounds = (20000, 3) if quick else (100000, 6)
-        lines = ["T 4 %d 3 1 %d" % (per, rounds), "T 4 %d 3 0 %d" % (per, rounds), "T 4 %d 1 1 %d" % (per, rounds)]
+        # >= 10^5 samples per round against a few tens of drains (spaced by a pause), so that the bound below discriminates
+        per, rounds, gap = (50000, 3, 50) if quick else (150000, 6, 1000)
+        threads = 4
+        lines = ["T %d %d 3 1 %d %d" % (threads, per, rounds, gap), "T %d %d 3 0 %d %d" % (threads, per, rounds, gap), "T %d %d 1 1 %d %d" % (threads, per, rounds, gap)]
         rc, outs, err = run_impl(ctx["binpath"], lines, timeout=900)
         viol = []
-        cov = dict(stress_runs=len(lines) * rounds, stress_samples_recorded=0, stress_renders=0, stress_shortfall=0, stress_duplicates=0)
+        cov = dict(stress_runs=len(lines) * rounds, stress_samples_recorded=0, stress_renders=0, stress_drains=0, shortfall=0, bound=0, stress_duplicates=0)
         open_known = [k for k in load_known() if k["property"] == self.pid and k["status"] == "open"]
         shortfalls = []
         for line, out in zip(lines, outs):
@@ -442,6 +444,11 @@ class C07(Prop):
             ctr = [int(x) for x in f["ctr"].split(",")]
             cov["stress_samples_recorded"] += sum(rec)
             cov["stress_renders"] += int(f["renders"])
+            drains = int(f["drains"])
+            cov["stress_drains"] += drains
+            # C05-late-claim loses at most ONE in-flight push per recording thread per clear of a bucket, i.e. per key and drain
+            key_bound = threads * drains
+            cov["bound"] += key_bound * len(rec)
             dup = int(f["over"]) > 0 or any(a > b for a, b in zip(cnt, rec))
             if dup:
                 cov["stress_duplicates"] += 1
@@ -452,12 +459,17 @@ class C07(Prop):
             if ctr != rec:
                 viol.append(("stress", "a counter does not show the total of its increments after the recording threads joined", dict(stress=line, output=out)))
             if not dup and any(a < b for a, b in zip(cnt, rec)):
-                cov["stress_shortfall"] += sum(b - a for a, b in zip(cnt, rec))
-                shortfalls.append((line, out))
+                cov["shortfall"] += sum(b - a for a, b in zip(cnt, rec))
+                if any(b - a > key_bound for a, b in zip(cnt, rec)):
+                    viol.append(("stress", "a histogram _count fell short of the number of samples recorded under the key by more than the inherited C05-late-claim class can explain "
+                                 "(at most one in-flight push per recording thread per drain: %d threads x %d drains started while recording = %d per key): samples are lost by the drain itself"
+                                 % (threads, drains, key_bound), dict(stress=line, output=out, per_key_bound=key_bound)))
+                else:
+                    shortfalls.append((line, out))
         if shortfalls:
             if open_known:
                 k = open_known[0]
-                print("KNOWN-FINDING: property=%s %s (%s; reproduced on %d stress run(s) this run)" % (self.pid, k["id"], k["what"], len(shortfalls)))
+                print("KNOWN-FINDING: property=%s %s (%s; reproduced on %d stress run(s) this run, total shortfall %d within the class bound recorders x drains = %d)" % (self.pid, k["id"], k["what"], len(shortfalls), cov["shortfall"], cov["bound"]))
             else:
                 viol.append(("stress", "a histogram _count is smaller than the number of samples recorded under the key after all recording threads joined (samples lost under concurrent render()/run_upkeep())",
                              dict(stress=shortfalls[0][0], output=shortfalls[0][1])))
